@@ -364,6 +364,9 @@ def run_step(B, inst, st):
     if op == "opt":
         B.set_option(inst, st[1], st[2])
         return None
+    if op == "aio":
+        B.aio_call(inst)
+        return None
     if op == "ret":
         return ("ret", task_value(inst, st[1]))
     if op == "res":
